@@ -78,4 +78,17 @@ impl StoredValue {
 //@@ end
 }
 
+
+impl DatabaseShard {
+//@@ unit purge_if_expired fn src/storage/engine.rs DatabaseShard::purge_if_expired
+    fn purge_if_expired(&mut self, key: &[u8]) -> (r: bool)
+        ensures
+            r == (old(self).data@.contains_key(key_of(key@)) && expired(old(self).data@[key_of(key@)])),
+            // afterwards the shard IS the state an operation on `key` sees: a key past its deadline is gone (key space + index) and marked
+            final(self).data@ == eff(*old(self), key_of(key@)).data,
+            final(self).expiring_keys@ == eff(*old(self), key_of(key@)).exp,
+            final(self).watch_tracker.marks@ == eff(*old(self), key_of(key@)).marks,
+//@@ body
+//@@ end
+}
 }
